@@ -705,3 +705,11 @@ mod tests {
         QuickCheck::new().tests(10).quickcheck(prop as fn(_) -> _)
     }
 }
+
+#[cfg(feature = "verif-hooks")]
+impl<TNodeId> FindNodeQuery<TNodeId> {
+    /// Read-only view of the internal progress mode (verification hook).
+    pub fn verif_is_stalled(&self) -> bool {
+        matches!(self.progress, QueryProgress::Stalled)
+    }
+}
